@@ -86,8 +86,8 @@ def rule_grow(ctx, rep, rid):
     f = fn(ctx, "init_table")
     rep.touch(f)
     szs = pat.stores(f, "cds_lfht.size")
-    al = pat.calls(f, "cds_lfht_alloc_bucket_table")
-    po = pat.calls(f, "init_table_populate")
+    al = pat.calls_opt(f, "cds_lfht_alloc_bucket_table")
+    po = pat.calls_opt(f, "init_table_populate")
     pat.require(szs, "init_table: size store")
     if not al or not po:
         rep.bad(rid, "init_table.anatomy", "init_table publishes a larger size without %s the new level" % ("allocating" if not al else "populating"), [szs[0].where()])
